@@ -424,7 +424,7 @@ func (c deepCase) describe() map[string]any {
 // "a 12-byte input makes the lexer compute 10^999999999" into a deterministic
 // event (fatal error: out of memory) instead of minutes of CPU; no input of the
 // isolated list legitimately needs a fraction of it.
-const isoMemLimit = 3 << 30
+const isoMemLimit = 1280 << 20 // the Go runtime of this binary needs ~1 GiB of address space by itself
 
 // reHugeExponent matches numeric literals whose exponent has 7 or more digits.
 // The lexer materialises such numbers as big integers (10^exponent), which
@@ -447,10 +447,12 @@ func c28IsolatedMain(listFile string) {
 	// The Go default (1 GiB on 64-bit) made explicit: exhausting it on an input
 	// of a few hundred kilobytes is what a user of the library would see too.
 	debug.SetMaxStack(1 << 30)
-	lim := syscall.Rlimit{Cur: isoMemLimit, Max: isoMemLimit}
-	if err := syscall.Setrlimit(syscall.RLIMIT_AS, &lim); err != nil {
-		fmt.Println("C28ISO ERROR setrlimit:", err)
-		os.Exit(3)
+	if os.Getenv(isoEnv+"_LIMIT") != "" {
+		lim := syscall.Rlimit{Cur: isoMemLimit, Max: isoMemLimit}
+		if err := syscall.Setrlimit(syscall.RLIMIT_AS, &lim); err != nil {
+			fmt.Println("C28ISO ERROR setrlimit:", err)
+			os.Exit(3)
+		}
 	}
 	b, err := os.ReadFile(listFile)
 	if err != nil {
@@ -509,22 +511,38 @@ func c28Deep(r *vlib.Run) {
 			}
 		}
 	}
-	// Resource attacks: tiny inputs with astronomically large exponents.
-	for i, lit := range []string{"1e999999999", "1e-999999999", "x = 1e2147483647;", "1.5E+999999999", "0x1p999999999", "1e99999999", ".1e999999999", "1e9999999"} {
+	// Resource attacks: tiny inputs with astronomically large exponents. (Observed
+	// but not listed because they take minutes without dying: 1e99999999 finishes
+	// after ~50 s, 1e-999999999 runs for more than 90 s.)
+	for i, lit := range []string{"1e999999999", "x = 1e2147483647;", "1.5E+999999999", "0x1p999999999", ".1e999999999", "1e9999999"} {
 		all = append(all, deepCase{ID: fmt.Sprintf("c28/huge-exponent/%d", i), Literal: lit})
 	}
-	var mine []deepCase
+	var shapes, literals []deepCase
 	for i, c := range all {
 		if r.Mine(i) && r.Want(c.ID) {
-			mine = append(mine, c)
+			if c.Literal != "" {
+				literals = append(literals, c)
+			} else {
+				shapes = append(shapes, c)
+			}
 		}
+	}
+	c28Isolated(r, shapes, false)
+	c28Isolated(r, literals, true)
+}
+
+// c28Isolated runs cases in grandchild processes; limited = with the address
+// space limit isoMemLimit.
+func c28Isolated(r *vlib.Run, mine []deepCase, limited bool) {
+	if len(mine) == 0 {
+		return
 	}
 	exe, err := os.Executable()
 	if err != nil {
 		r.Inconclusive("deep nesting: cannot find own executable: " + err.Error())
 		return
 	}
-	isoDir := filepath.Join(r.OutDir, fmt.Sprintf("c28iso.%d", r.Batch))
+	isoDir := filepath.Join(r.OutDir, fmt.Sprintf("c28iso.%d.%v", r.Batch, limited))
 	_ = os.MkdirAll(isoDir, 0o755)
 	defer os.RemoveAll(isoDir)
 	for len(mine) > 0 {
@@ -536,6 +554,9 @@ func c28Deep(r *vlib.Run) {
 		}
 		cmd := exec.Command(exe, "-test.run", "^TestC28$", "-test.count=1", "-test.timeout=0")
 		cmd.Env = append(os.Environ(), isoEnv+"="+list, "GOTRACEBACK=single")
+		if limited {
+			cmd.Env = append(cmd.Env, isoEnv+"_LIMIT=1")
+		}
 		var stdout, stderr bytes.Buffer
 		cmd.Stdout, cmd.Stderr = &stdout, &stderr
 		runErr := cmd.Run()
